@@ -14,6 +14,16 @@ theorem typeStep_as (last : DataType) (marks : MarkTypes) (name : String) :
   cases last <;> cases (name == "") <;> cases (validFieldName name) <;>
     cases (name == currentNamespace) <;> rfl
 
+theorem find_agg : handTable.find .aggregate .plain = some
+    { kind := .aggregate, variant := .plain,
+      res := [.err, .ty .aggregation, .ty .aggregation, .err, .err, .err, .err, .err],
+      checks := [.aggNames], setsMark := false } := by rfl
+
+theorem typeStep_agg (last : DataType) (marks : MarkTypes) (aggs : List Agg) :
+    typeStep ⟨last, marks⟩ (.aggregate aggs) = typeStepT handTable ⟨last, marks⟩ (.aggregate aggs) := by
+  simp only [typeStep, needElement, typeStepT, Stmt.kind, Stmt.variant, find_agg, List.find?, Stmt.checkFails]
+  cases last <;> cases (aggsBad aggs) <;> rfl
+
 theorem typeStep_eq_table (st : TState) (s : Stmt) : typeStep st s = typeStepT handTable st s := by
   obtain ⟨last, marks⟩ := st
   cases s with
@@ -21,6 +31,7 @@ theorem typeStep_eq_table (st : TState) (s : Stmt) : typeStep st s = typeStepT h
   | hasLabel l => cases l <;> cases last <;> rfl
   | hasKey l => cases l <;> cases last <;> rfl
   | hasId l => cases l <;> cases last <;> rfl
+  | aggregate aggs => exact typeStep_agg last marks aggs
   | select ms =>
     match ms with
     | [] => cases last <;> rfl
